@@ -13,9 +13,11 @@ import (
 	"math"
 	"os"
 	"reflect"
+	"regexp"
 	"sort"
 	"strconv"
 	"strings"
+	"unicode/utf8"
 )
 
 type verifNondetVal struct {
@@ -28,6 +30,7 @@ type verifCase struct {
 	Harness string           `json:"harness"`
 	Idx     int              `json:"idx"`
 	Tier    int              `json:"tier"`
+	Prop    string           `json:"prop"`
 	Nondet  []verifNondetVal `json:"nondet"`
 }
 
@@ -48,6 +51,7 @@ var verifState struct {
 	failed   []string
 	preds    map[string]bool
 	tier     int
+	property string
 }
 
 func verifPop(kind string) verifNondetVal {
@@ -220,7 +224,14 @@ func verifPred(key string) bool {
 }
 func verifFmtOK(format, s string) bool    { return verifPred("fmt:" + format + ":" + s) }
 func verifKnownFmt(format string) bool    { return verifPred("known:" + format) }
-func verifMatches(pattern, s string) bool { return verifPred("match:" + pattern + ":" + s) }
+func verifMatches(pattern, s string) bool {
+	re, err := regexp.Compile(pattern)
+	return err == nil && re.MatchString(s)
+}
+
+func verifRuneCount(s string) int64 { return int64(utf8.RuneCountInString(s)) }
+func verifFoldEq(a, b string) bool  { return strings.EqualFold(a, b) }
+func verifChecking(property string) bool { return verifState.property == property }
 
 func verifSubset(a, b []string) bool {
 	set := map[string]bool{}
@@ -261,6 +272,7 @@ func verifRunCase(c verifCase, fn func()) (res verifResult) {
 	verifState.observed, verifState.failed = nil, nil
 	verifState.preds = map[string]bool{}
 	verifState.tier = c.Tier
+	verifState.property = c.Prop
 	resetPools()
 	defer func() {
 		if r := recover(); r != nil {
